@@ -676,6 +676,91 @@ fn run_alg_sweep(ctx: &mut Ctx, key: &SignedSecretKey) {
     }
 }
 
+/// one-shot faults of the kinds callers treat specially: `Interrupted` (std's `io::copy`,
+/// `read_to_end`, `write_all` retry it: the result is then the complete, correct one or an error —
+/// never a panic, never a silently shorter message), `UnexpectedEof` / `WouldBlock` / `TimedOut`
+/// (an error, never taken for the end of the data) (oracle only)
+fn run_fault_kinds(ctx: &mut Ctx, key: &SignedSecretKey) {
+    use std::io::ErrorKind as K;
+    let mut rng = ChaCha8Rng::seed_from_u64(ctx.seed ^ 0xC09F);
+    let base = Cfg { utf8: false, compression: None, sign: false, enc: Enc::None, armor: false, chunk: 512, algs: DEF };
+    let cfgs = [
+        base,
+        Cfg { enc: Enc::V1, ..base },
+        Cfg { enc: Enc::V2, ..base },
+        Cfg { compression: Some(CompressionAlgorithm::ZLIB), ..base },
+        Cfg { armor: true, ..base },
+        Cfg { sign: true, ..base },
+        Cfg { sign: true, enc: Enc::V2, compression: Some(CompressionAlgorithm::ZIP), armor: true, ..base },
+    ];
+    for cfg in &cfgs {
+        for &n in &[0usize, 100, 3000] {
+            let data = payload(&mut rng, cfg.utf8, n);
+            let site = format!("MessageBuilder / Message reader {cfg:?}");
+            let mut reference = Vec::new();
+            if !matches!(guarded(|| build(cfg, key, &data[..], &mut reference, 13)), Ok(Ok(()))) {
+                continue;
+            }
+            // builder: source faults
+            let mut probe = ScheduledReader::new(&data, &[300; 4096]);
+            let mut sink = Vec::new();
+            let _ = guarded(|| build(cfg, key, &mut probe, &mut sink, 13));
+            let calls = probe.calls_made;
+            for kind in [K::Interrupted, K::UnexpectedEof, K::WouldBlock, K::TimedOut] {
+                for k in 0..calls {
+                    let mut out = Vec::new();
+                    let r = guarded(|| build(cfg, key, ScheduledReader::new(&data, &[300; 4096]).with_fault_kind(k, kind), &mut out, 13));
+                    let complete = || {
+                        if cfg.sign {
+                            matches!(guarded(|| read_back(cfg, key, &out[..], Pattern::ReadToEnd)), Ok(Ok((p, v))) if p == data && v)
+                        } else {
+                            out == reference
+                        }
+                    };
+                    let ok = match &r {
+                        Ok(Err(_)) => true,
+                        Ok(Ok(())) => kind == K::Interrupted && complete(),
+                        Err(_) => false,
+                    };
+                    ctx.oracle("source_fault_surfaces", &site, &format!("n={n} {kind:?}@read#{k}/{calls} data={}", hx(&data[..data.len().min(64)])), ok, &format!("{:?} out_len={} reference_len={}", r.as_ref().map(|x| x.is_ok()), out.len(), reference.len()));
+                    ctx.stat(&format!("fault_kind:builder_source:{kind:?}"));
+                }
+                // builder: sink faults
+                let mut wprobe = ScheduledWriter::new(&[]);
+                let _ = guarded(|| build(cfg, key, &data[..], &mut wprobe, 13));
+                let wcalls = wprobe.calls_made;
+                for k in (0..wcalls).step_by((wcalls / 12).max(1)) {
+                    let mut sink = ScheduledWriter::new(&[]).with_fault_kind(k, kind);
+                    let r = guarded(|| build(cfg, key, &data[..], &mut sink, 13));
+                    let ok = match &r {
+                        Ok(Err(_)) => true,
+                        Ok(Ok(())) => kind == K::Interrupted && (cfg.sign || sink.out == reference),
+                        Err(_) => false,
+                    };
+                    ctx.oracle("sink_fault_surfaces", &site, &format!("n={n} {kind:?}@write#{k}/{wcalls}"), ok, &format!("{:?} written={} reference_len={}", r.as_ref().map(|x| x.is_ok()), sink.out.len(), reference.len()));
+                    ctx.stat(&format!("fault_kind:builder_sink:{kind:?}"));
+                }
+                // reader: source faults
+                let mut probe = ScheduledReader::new(&reference, &[]);
+                let _ = guarded(|| read_back(cfg, key, BufReader::with_capacity(128, &mut probe), Pattern::ReadToEnd).is_ok());
+                let rcalls = probe.calls_made;
+                for k in (0..rcalls).step_by((rcalls / 40).max(1)) {
+                    let r = guarded(|| read_back(cfg, key, BufReader::with_capacity(128, ScheduledReader::new(&reference, &[]).with_fault_kind(k, kind)), Pattern::ReadToEnd));
+                    let ok = match &r {
+                        Ok(Err(_)) => true,
+                        // (a clean result must be the complete, verified one: the fault was retried,
+                        //  or it hit a call behind the end of the message)
+                        Ok(Ok((p, v))) => *p == data && *v && (kind == K::Interrupted || k + 2 >= rcalls),
+                        Err(_) => false,
+                    };
+                    ctx.oracle("reader_source_fault_surfaces", &site, &format!("n={n} {kind:?}@read#{k}/{rcalls} msg={}", hx(&reference[..reference.len().min(64)])), ok, &format!("{:?}", r.as_ref().map(|x| x.as_ref().map(|(p, v)| (p.len(), *v)))));
+                    ctx.stat(&format!("fault_kind:reader_source:{kind:?}"));
+                }
+            }
+        }
+    }
+}
+
 fn run_model_ops(ctx: &mut Ctx) {
     // fill_buffer: exhaustive chunkings of short inputs x requested sizes
     for n in 0..=6usize {
@@ -758,6 +843,7 @@ pub fn run(ctx: &mut Ctx) {
     run_model_ops(ctx);
     run_enc_poll(ctx);
     run_alg_sweep(ctx, &key);
+    run_fault_kinds(ctx, &key);
     // thorough: repeated with fresh payloads, schedules and fault positions
     let rounds = ctx.pick(1u64, 160u64);
     let base = ctx.seed;
